@@ -172,7 +172,7 @@ impl<'a> Decoder<'a> {
         // decode all values
         for _ in 0..length {
             let key = keys.pop_front().unwrap();
-            let k = key.as_str().unwrap();
+            let k = key.as_str().ok_or(Error::InvalidJsonbJEntry)?;
             let jentry = jentries.pop_front().unwrap();
             let value = self.decode_scalar(jentry)?;
             obj.insert(k.to_string(), value);
